@@ -195,6 +195,8 @@ ReadWaitFree == \A r \in Readers : rpc[r] \in {"gen", "inc", "ptr", "dec"} => EN
 TypeOK == /\ gen \in Slots /\ data \in 0..MaxWrites /\ alive \subseteq 0..MaxWrites
           /\ \A i \in Slots : lock[i] \in 0..Cardinality(Readers)
 
+Perms == Permutations(Readers) \cup Permutations(Writers)
+
 StoreTerminates == \A w \in Writers : (wpc[w] # "idle") ~> (wpc[w] = "idle")
 ReadTerminates == \A r \in Readers : (rpc[r] \in {"gen", "inc", "ptr"}) ~> (rpc[r] = "held")
 =============================================================================
